@@ -507,10 +507,6 @@ def FTy.toTy : FTy → Ty
   | .ptr t => .ptr t.toTy
   | .arr t len => .arr t.toTy len
 
-def FTy.isArr : FTy → Bool
-  | .arr _ _ => true
-  | _ => false
-
 /-- The specifier part of the name. -/
 def FTy.baseName : FTy → Str
   | .prim n => n
@@ -523,47 +519,11 @@ def FTy.leaf : FTy → FTy
   | .arr t _ => t.leaf
   | t => t
 
-/-- The declarator part of the text before the name position. -/
-def FTy.hdD : FTy → Str
-  | .ptr t => t.hdD ++ (if t.isArr then "(*".toList else " *".toList)
-  | .arr t _ => t.hdD
-  | _ => []
-
-def FTy.tlF : FTy → Str
-  | .ptr t => (if t.isArr then ")".toList else []) ++ t.tlF
-  | .arr t len => lenText len ++ t.tlF
-  | _ => []
-
 /-- All array lengths fit a `Py_ssize_t`. -/
 def FTy.LensOK : FTy → Prop
   | .ptr t => t.LensOK
   | .arr t len => t.LensOK ∧ ∀ n, len = some n → n ≤ maxSsize
   | _ => True
-
-theorem FTy.toTy_isArr (F : FTy) : F.toTy.isArr = F.isArr := by cases F <;> rfl
-
-theorem FTy.toTy_not_func (F : FTy) : ∀ a r e, F.toTy ≠ .func a r e := by
-  cases F <;> simp [FTy.toTy]
-
-theorem hd_toTy (F : FTy) : hd F.toTy = F.baseName ++ F.hdD := by
-  induction F with
-  | prim n => simp [FTy.toTy, hd, FTy.baseName, FTy.hdD]
-  | agg k tag => simp [FTy.toTy, hd, FTy.baseName, FTy.hdD]
-  | ptr t ih =>
-    have : hd (.ptr t.toTy) = hd t.toTy ++ ptrHead t.toTy := by
-      cases t <;> simp [FTy.toTy, hd]
-    simp [FTy.toTy, this, ih, FTy.baseName, FTy.hdD, ptrHead, FTy.toTy_isArr]
-  | arr t len ih => simp [FTy.toTy, hd, ih, FTy.baseName, FTy.hdD]
-
-theorem tl_toTy (F : FTy) : tl F.toTy = F.tlF := by
-  induction F with
-  | prim n => simp [FTy.toTy, tl, FTy.tlF]
-  | agg k tag => simp [FTy.toTy, tl, FTy.tlF]
-  | ptr t ih =>
-    have : tl (.ptr t.toTy) = ptrTail t.toTy ++ tl t.toTy := by
-      cases t <;> simp [FTy.toTy, tl]
-    simp [FTy.toTy, this, ih, FTy.tlF, ptrTail, FTy.toTy_isArr]
-  | arr t len ih => simp [FTy.toTy, tl, ih, FTy.tlF]
 
 /-! ### Declarators with a hole at the name position -/
 
@@ -580,12 +540,6 @@ def Decl.nstars : Decl → Nat
   | .group s _ _ => s
 
 def paren (d : Decl) : Decl := .group 0 d []
-
-/-- The declarator of `F`'s name with declarator `d` put at the name position. -/
-def wrap : FTy → Decl → Decl
-  | .ptr t, d => if t.isArr then wrap t (paren d.star) else wrap t d.star
-  | .arr t len, d => wrap t (d.snoc (.arr len))
-  | _, d => d
 
 theorem ptrN_succ (n : Nat) (t : Ty) : ptrN (n + 1) t = ptrN n (.ptr t) := rfl
 
@@ -610,43 +564,6 @@ theorem star_nstars (d : Decl) : 0 < d.star.nstars := by cases d <;> simp [Decl.
 theorem snoc_nstars (d : Decl) (a : Suffix) : (d.snoc a).nstars = d.nstars := by
   cases d <;> simp [Decl.snoc, Decl.nstars]
 
-/-- Putting `d` at the name position of `F` and applying the result to `F`'s leaf type
-is applying `d` to `F` — provided no star is put directly in front of an array type
-(this is what `ffi_getctype`'s `add_paren` rule is for). -/
-theorem wrap_apply (F : FTy) : ∀ d : Decl, (F.isArr = true → d.nstars = 0) →
-    (wrap F d).apply F.leaf.toTy = d.apply F.toTy := by
-  induction F with
-  | prim n => intro d _; simp [wrap, FTy.leaf]
-  | agg k tag => intro d _; simp [wrap, FTy.leaf]
-  | ptr t ih =>
-    intro d _
-    simp only [wrap, FTy.leaf, FTy.toTy]
-    split
-    · rw [ih _ (by intro _; simp [paren, Decl.nstars]), paren_apply, star_apply]
-    · rename_i h
-      rw [ih _ (by intro h'; exact absurd h' h), star_apply]
-  | arr t len ih =>
-    intro d hd
-    have h0 := hd rfl
-    simp only [wrap, FTy.leaf, FTy.toTy]
-    rw [ih _ (by intro _; rw [snoc_nstars]; exact h0), snoc_apply _ _ _ h0]
-
-theorem sfxToks_append (x y : List Suffix) : sfxToks (x ++ y) = sfxToks x ++ sfxToks y := by
-  induction x with
-  | nil => rfl
-  | cons a x ih => cases a with
-    | arr len => cases len <;> simp [sfxToks, ih]
-    | fn a e => simp [sfxToks, ih]
-
-theorem dtoks_star (d : Decl) : dtoks d.star = .sym '*' :: dtoks d := by
-  cases d <;> simp [Decl.star, dtoks, stars, List.replicate_succ]
-
-theorem dtoks_paren (d : Decl) : dtoks (paren d) = .sym '(' :: (dtoks d ++ [.sym ')']) := by
-  simp [paren, dtoks, stars, sfxToks]
-
-theorem dtoks_snoc (d : Decl) (a : Suffix) : dtoks (d.snoc a) = dtoks d ++ sfxToks [a] := by
-  cases d <;> simp [Decl.snoc, dtoks, sfxToks_append]
-
 theorem ArrOnly_append (x : List Suffix) (len : Option Nat) (hx : ArrOnly x)
     (hl : ∀ n, len = some n → n ≤ maxSsize) : ArrOnly (x ++ [.arr len]) := by
   induction x with
@@ -658,34 +575,7 @@ theorem ArrOnly_append (x : List Suffix) (len : Option Nat) (hx : ArrOnly x)
                · exact ⟨hx.1, ih hx.2⟩
     | fn a e => exact absurd hx (by simp [ArrOnly])
 
-theorem star_printable (d : Decl) (h : Printable d) : Printable d.star ∧ Groupable d.star := by
-  cases d <;> simp_all [Decl.star, Printable, Groupable]
-
-theorem snoc_printable (d : Decl) (len : Option Nat) (h : Printable d)
-    (hl : ∀ n, len = some n → n ≤ maxSsize) : Printable (d.snoc (.arr len)) := by
-  cases d with
-  | flat s x => exact ArrOnly_append x len h hl
-  | group s g x => exact ⟨h.1, h.2.1, ArrOnly_append x len h.2.2 hl⟩
-
-theorem wrap_printable (F : FTy) : ∀ d : Decl, F.LensOK → Printable d → Printable (wrap F d) := by
-  induction F with
-  | prim n => intro d _ h; exact h
-  | agg k tag => intro d _ h; exact h
-  | ptr t ih =>
-    intro d hl h
-    simp only [wrap]
-    have hs := star_printable d h
-    split
-    · exact ih _ hl ⟨hs.1, hs.2, by simp [ArrOnly]⟩
-    · exact ih _ hl hs.1
-  | arr t len ih =>
-    intro d hl h
-    exact ih _ hl.1 (snoc_printable d len h hl.2)
-
-/-! ### Tokens of the printed name -/
-
-/-- The text `X` tokenizes to the tokens of `d`, whatever follows. -/
-def TokX (X : Str) (d : Decl) : Prop := ∀ s', run .idle (X ++ s') = dtoks d ++ run .idle s'
+/-! ### Length texts -/
 
 theorem dec_shape (n : Nat) : ∃ c ds, dec n = c :: ds ∧ isDigit c = true ∧ ∀ x ∈ ds, isHexDigit x = true := by
   rw [dec_eq, digitsOf]
@@ -710,44 +600,6 @@ theorem run_lenText (len : Option Nat) (s : Str) :
     have := run_number c ds (']' :: s) hc hds ⟨by decide, by decide, by decide⟩
     simp only [List.cons_append] at this ⊢
     rw [this, run_idle_rbracket]
-
-theorem tokX_star (X : Str) (d : Decl) (h : TokX X d) : TokX (" *".toList ++ X) d.star := by
-  intro s'
-  show run .idle (' ' :: '*' :: (X ++ s')) = _
-  rw [run_idle_space, run_idle_star, h, dtoks_star]; rfl
-
-theorem tokX_paren_star (X : Str) (d : Decl) (h : TokX X d) :
-    TokX ("(*".toList ++ X ++ ")".toList) (paren d.star) := by
-  intro s'
-  show run .idle ('(' :: '*' :: (X ++ [')'] ++ s')) = _
-  rw [run_idle_lparen, run_idle_star, List.append_assoc, h]
-  show _ :: _ :: (dtoks d ++ run .idle (')' :: s')) = _
-  rw [run_idle_rparen, dtoks_paren, dtoks_star]; simp
-
-theorem tokX_snoc (X : Str) (d : Decl) (len : Option Nat) (h : TokX X d) :
-    TokX (X ++ lenText len) (d.snoc (.arr len)) := by
-  intro s'
-  rw [List.append_assoc, h, run_lenText, dtoks_snoc]; simp
-
-/-- Tokens of the declarator part of `F`'s name with the text `X` (tokens of `d`) at the
-name position: the tokens of `wrap F d`. -/
-theorem tokX_wrap (F : FTy) : ∀ (X : Str) (d : Decl), TokX X d → TokX (F.hdD ++ X ++ F.tlF) (wrap F d) := by
-  induction F with
-  | prim n => intro X d h; simpa [FTy.hdD, FTy.tlF, wrap] using h
-  | agg k tag => intro X d h; simpa [FTy.hdD, FTy.tlF, wrap] using h
-  | ptr t ih =>
-    intro X d h
-    simp only [FTy.hdD, FTy.tlF, wrap]
-    split
-    · have := ih _ _ (tokX_paren_star X d h)
-      simpa [List.append_assoc] using this
-    · have := ih _ _ (tokX_star X d h)
-      simpa [List.append_assoc] using this
-  | arr t len ih =>
-    intro X d h
-    simp only [FTy.hdD, FTy.tlF, wrap]
-    have := ih _ _ (tokX_snoc X d len h)
-    simpa [List.append_assoc] using this
 
 /-! ### Leaves: the specifier part of a printed name -/
 
@@ -868,61 +720,6 @@ theorem base_ok (ctx : Ctx) (L : FTy) (h : WFLeaf ctx L) :
     · apply ident_base ctx _ _ rest hr
       simp only [basePlain, hl, FTy.toTy]
 
-/-! ### Assembly: parsing a printed name with a declarator at the name position -/
-
-theorem need_le (d : Decl) : need d ≤ (dtoks d).length + 2 := by
-  induction d with
-  | flat s x => simp [need]
-  | group s g x ih => simp only [need, dtoks, List.length_append, List.length_cons]; omega
-
-theorem dtoks_declStart (d : Decl) : DeclStart (dtoks d) := by
-  have hs : ∀ x : List Suffix, DeclStart (sfxToks x) := by
-    intro x
-    induction x with
-    | nil => exact .nil
-    | cons a x ih =>
-      cases a with
-      | arr len => cases len <;> exact .sym _ _
-      | fn a e => exact ih
-  cases d with
-  | flat s x =>
-    cases s with
-    | zero => simpa [dtoks, stars] using hs x
-    | succ s => simp only [dtoks, stars, List.replicate_succ, List.cons_append]; exact .sym _ _
-  | group s g x =>
-    cases s with
-    | zero => simp only [dtoks, stars, List.replicate_zero, List.nil_append]; exact .sym _ _
-    | succ s => simp only [dtoks, stars, List.replicate_succ, List.cons_append]; exact .sym _ _
-
-theorem FTy.baseName_leaf (F : FTy) : F.leaf.baseName = F.baseName := by
-  induction F with
-  | prim n => rfl
-  | agg k tag => rfl
-  | ptr t ih => simpa [FTy.leaf, FTy.baseName] using ih
-  | arr t len ih => simpa [FTy.leaf, FTy.baseName] using ih
-
-/-- The parser reads `F`'s printed name with the text of a declarator `d` inserted at the
-name position as `d` applied to `F`. -/
-theorem parse_name_with (ctx : Ctx) (F : FTy) (hleaf : WFLeaf ctx F.leaf) (hlens : F.LensOK)
-    (X : Str) (d : Decl) (hd : Printable d) (harr : F.isArr = true → d.nstars = 0)
-    (hX : TokX X d) (hstart : DelimStart (F.hdD ++ X ++ F.tlF)) :
-    parseType ctx (F.baseName ++ (F.hdD ++ X ++ F.tlF)) = .ok (d.apply F.toTy) := by
-  obtain ⟨bt, hb1, hb2⟩ := base_ok ctx F.leaf hleaf
-  have htok : tokenize (F.baseName ++ (F.hdD ++ X ++ F.tlF)) = bt ++ dtoks (wrap F d) := by
-    rw [tokenize, ← FTy.baseName_leaf, hb1 _ hstart]
-    have := tokX_wrap F X d hX []
-    simp only [List.append_nil] at this
-    rw [this]; simp [run, flush]
-  have hbase := hb2 (dtoks (wrap F d)) (dtoks_declStart _)
-  have hseq := parseSequel_dtoks ctx (wrap F d) [] (3 * (bt ++ dtoks (wrap F d)).length + 3)
-    (wrap_printable F d hlens hd) Stop.nil (by
-      have := need_le (wrap F d)
-      simp only [List.length_append]; omega)
-  simp only [List.append_nil] at hseq
-  rw [parseType, htok, parseToks, parseComplete, hbase]
-  simp only [bind, Except.bind, hseq, pure, Except.pure]
-  rw [wrap_apply F d harr]
-
 /-! ### Declarator texts `*…*[N]…[M]` and `ffi_getctype` -/
 
 /-- The replacement text: `k` stars followed by bracketed lengths. -/
@@ -932,36 +729,6 @@ def declText (k : Nat) (lens : List (Option Nat)) : Str :=
 /-- The type the declarator text denotes on top of `T`: array … of array of `k`-fold pointer to `T`. -/
 def applyDecl (k : Nat) (lens : List (Option Nat)) (T : Ty) : Ty :=
   applySfx (lens.map Suffix.arr) (ptrN k T)
-
-theorem tokX_brackets (lens : List (Option Nat)) :
-    TokX ((lens.map lenText).flatten) (.flat 0 (lens.map Suffix.arr)) := by
-  intro s'
-  induction lens with
-  | nil => simp [dtoks, stars, sfxToks]
-  | cons l lens ih =>
-    simp only [List.map_cons, List.flatten_cons, List.append_assoc]
-    rw [run_lenText, ih]
-    cases l <;> simp [dtoks, stars, sfxToks]
-
-theorem tokX_declText (k : Nat) (lens : List (Option Nat)) :
-    TokX (declText k lens) (.flat k (lens.map Suffix.arr)) := by
-  intro s'
-  induction k with
-  | zero => simpa [declText] using tokX_brackets lens s'
-  | succ k ih =>
-    have : declText (k + 1) lens ++ s' = '*' :: (declText k lens ++ s') := by
-      simp [declText, List.replicate_succ]
-    rw [this, run_idle_star, ih]
-    simp [dtoks, stars, List.replicate_succ]
-
-theorem tokX_space (X : Str) (d : Decl) (h : TokX X d) : TokX (' ' :: X) d := by
-  intro s'; rw [List.cons_append, run_idle_space]; exact h s'
-
-theorem tokX_paren (X : Str) (d : Decl) (h : TokX X d) : TokX ('(' :: (X ++ [')'])) (paren d) := by
-  intro s'
-  rw [List.cons_append, run_idle_lparen, List.append_assoc, h]
-  show _ :: (dtoks d ++ run .idle (')' :: s')) = _
-  rw [run_idle_rparen, dtoks_paren]; simp
 
 theorem arrOnly_map (lens : List (Option Nat)) (h : ∀ n, some n ∈ lens → n ≤ maxSsize) :
     ArrOnly (lens.map Suffix.arr) := by
@@ -987,154 +754,6 @@ theorem lenText_ends (l : Option Nat) : ∃ m, lenText l = '[' :: (m ++ [']']) :
   cases l with
   | none => exact ⟨[], rfl⟩
   | some n => exact ⟨dec n, rfl⟩
-
-theorem declText_strip (k : Nat) (lens : List (Option Nat)) : strip (declText k lens) = declText k lens := by
-  apply strip_eq_self
-  · intro c hc
-    cases k with
-    | succ k => simp [declText, List.replicate_succ] at hc; subst hc; decide
-    | zero =>
-      cases lens with
-      | nil => simp [declText] at hc
-      | cons l lens =>
-        obtain ⟨m, e⟩ := lenText_ends l
-        simp [declText, e] at hc; subst hc; decide
-  · intro c hc
-    have hb : ∀ ls : List (Option Nat), ls ≠ [] → ((ls.map lenText).flatten).getLast? = some ']' := by
-      intro ls
-      induction ls with
-      | nil => intro h; exact absurd rfl h
-      | cons l ls ih =>
-        intro _
-        obtain ⟨m, e⟩ := lenText_ends l
-        simp only [List.map_cons, List.flatten_cons, List.getLast?_append]
-        cases ls with
-        | nil =>
-          simp only [List.map_nil, List.flatten_nil, List.getLast?_nil, Option.none_or, e]
-          rw [show '[' :: (m ++ [']']) = ('[' :: m) ++ [']'] by simp, List.getLast?_concat]
-        | cons l' ls' => rw [ih (by simp)]; rfl
-    simp only [declText, List.getLast?_append] at hc
-    cases lens with
-    | nil =>
-      simp only [List.map_nil, List.flatten_nil, List.getLast?_nil, Option.none_or] at hc
-      cases k with
-      | zero => simp at hc
-      | succ k => rw [List.getLast?_replicate] at hc; simp at hc; subst hc; decide
-    | cons l ls =>
-      rw [hb (l :: ls) (by simp)] at hc
-      simp at hc; subst hc; decide
-
-/-! ### The two round-trip statements on the fragment -/
-
-theorem delimStart_cons (c : Char) (s : Str) (h : isIdentNext c = false) : DelimStart (c :: s) := h
-
-theorem delimStart_hdD (F : FTy) : ∀ Y : Str, DelimStart Y → DelimStart (F.hdD ++ Y) := by
-  induction F with
-  | prim n => intro Y h; simpa [FTy.hdD] using h
-  | agg k tag => intro Y h; simpa [FTy.hdD] using h
-  | ptr t ih =>
-    intro Y _
-    simp only [FTy.hdD, List.append_assoc]
-    apply ih
-    split <;> exact delimStart_cons _ _ (by decide)
-  | arr t len ih => intro Y h; simpa [FTy.hdD] using ih Y h
-
-theorem delimStart_tlF (F : FTy) : DelimStart F.tlF := by
-  induction F with
-  | prim n => simp [FTy.tlF, DelimStart]
-  | agg k tag => simp [FTy.tlF, DelimStart]
-  | ptr t ih =>
-    simp only [FTy.tlF]
-    split
-    · exact delimStart_cons _ _ (by decide)
-    · simpa using ih
-  | arr t len ih =>
-    obtain ⟨m, e⟩ := lenText_ends len
-    simp only [FTy.tlF, e]
-    exact delimStart_cons _ _ (by decide)
-
-theorem delimStart_mid (F : FTy) (X : Str) (h : DelimStart (X ++ F.tlF)) :
-    DelimStart (F.hdD ++ X ++ F.tlF) := by
-  rw [List.append_assoc]; exact delimStart_hdD F _ h
-
-theorem delimStart_mid_cons (F : FTy) (c : Char) (X : Str) (hc : isIdentNext c = false) :
-    DelimStart (F.hdD ++ c :: X ++ F.tlF) := by
-  rw [List.append_assoc]; exact delimStart_hdD F _ hc
-
-theorem cname_toTy (F : FTy) (x : Str) :
-    getcname (cname F.toTy) x = F.baseName ++ (F.hdD ++ x ++ F.tlF) := by
-  rw [getcname_eq, hd_toTy, tl_toTy]; simp
-
-/-- `typeof(getctype(T))`: the parser reads the printed name of every type of the fragment
-back as that type. -/
-theorem parse_cname_F (ctx : Ctx) (F : FTy) (hleaf : WFLeaf ctx F.leaf) (hlens : F.LensOK) :
-    parseType ctx (cname F.toTy).1 = .ok F.toTy := by
-  have e : (cname F.toTy).1 = F.baseName ++ (F.hdD ++ [] ++ F.tlF) := by
-    have := cname_toTy F []
-    rw [← this, getcname_eq, cname_eq]; simp
-  rw [e]
-  have := parse_name_with ctx F hleaf hlens [] (.flat 0 []) (by simp [Printable, ArrOnly])
-    (by intro _; rfl) (by intro s'; simp [dtoks, stars, sfxToks])
-    (delimStart_mid F [] (delimStart_tlF F))
-  simpa [Decl.apply, applySfx, ptrN] using this
-
-theorem getctype_decl_F (ctx : Ctx) (F : FTy) (hleaf : WFLeaf ctx F.leaf) (hlens : F.LensOK)
-    (k : Nat) (lens : List (Option Nat)) (hl : ∀ n, some n ∈ lens → n ≤ maxSsize) :
-    parseType ctx (getctypeC F.toTy (declText k lens)) = .ok (applyDecl k lens F.toTy) := by
-  have hp : Printable (.flat k (lens.map Suffix.arr)) := arrOnly_map lens hl
-  have hX := tokX_declText k lens
-  unfold getctypeC
-  simp only [declText_strip, FTy.toTy_isArr]
-  cases k with
-  | zero =>
-    cases lens with
-    | nil =>
-      have : declText 0 [] = [] := rfl
-      simp only [this, List.head?_nil, List.isEmpty_nil]
-      have := parse_cname_F ctx F hleaf hlens
-      have e := cname_toTy F []
-      simp only [getcname_eq] at e ⊢
-      simp at this ⊢
-      rw [cname_eq] at this
-      simpa [applyDecl, applySfx, ptrN] using this
-    | cons l ls =>
-      obtain ⟨m, e⟩ := lenText_ends l
-      have hh : (declText 0 (l :: ls)).head? = some '[' := by simp [declText, e]
-      have hne : (declText 0 (l :: ls)).isEmpty = false := by simp [declText, e]
-      simp only [hh, hne]
-      simp only [Option.some.injEq, Char.reduceEq, decide_false, Bool.false_and, Bool.not_false,
-        Bool.true_and, ne_eq, not_true_eq_false, decide_false, Bool.and_false, Bool.false_eq_true,
-        ↓reduceIte, List.nil_append, List.append_nil]
-      rw [cname_toTy]
-      have := parse_name_with ctx F hleaf hlens _ _ hp (by intro _; rfl) hX
-        (by
-          rw [show declText 0 (l :: ls) = '[' :: (m ++ [']'] ++ (ls.map lenText).flatten) by
-            simp [declText, e]]
-          exact delimStart_mid_cons F _ _ (by decide))
-      simpa [applyDecl, Decl.apply] using this
-  | succ k =>
-    have hh : (declText (k + 1) lens).head? = some '*' := by simp [declText, List.replicate_succ]
-    have hne : (declText (k + 1) lens).isEmpty = false := by simp [declText, List.replicate_succ]
-    simp only [hh, hne]
-    cases hA : F.isArr with
-    | true =>
-      simp only [decide_true, Bool.and_self, Bool.not_true, Bool.false_and, ↓reduceIte,
-        Bool.false_eq_true, List.append_nil]
-      rw [cname_toTy]
-      have := parse_name_with ctx F hleaf hlens _ _
-        (show Printable (paren (.flat (k + 1) (lens.map Suffix.arr))) from ⟨hp, by simp [Groupable], by simp [ArrOnly]⟩)
-        (by intro _; rfl) (tokX_paren _ _ hX)
-        (delimStart_mid_cons F _ _ (by decide))
-      simpa [applyDecl, paren_apply, Decl.apply] using this
-    | false =>
-      simp only [decide_true, Bool.and_false, Bool.not_false, Bool.true_and, ↓reduceIte,
-        Bool.false_eq_true, List.append_nil, List.nil_append]
-      simp only [ne_eq, Option.some.injEq, Char.reduceEq, not_false_eq_true, decide_true, Bool.and_self,
-        ↓reduceIte]
-      rw [cname_toTy]
-      have := parse_name_with ctx F hleaf hlens _ _ hp (by intro h; rw [hA] at h; cases h)
-        (tokX_space _ _ hX) (delimStart_mid_cons F _ _ (by decide))
-      simpa [applyDecl, Decl.apply] using this
 
 /-! ### Modifier order, number tokens of the three spellings -/
 
